@@ -726,14 +726,20 @@ def F_updflag(ctx, lib):
     except LookupError as e:
         ctx.lost(rule, "update_interpretation_fixpoint_upd", str(e))
         return
-    eng = ctx.engine([lib], no_inline={"adf_bdd::adf::Adf::update_interpretation"})
+    eng = ctx.engine([lib], no_inline={"adf_bdd::adf::Adf::update_interpretation", "adf_bdd::adf::Adf::apply_interpretation"})
+
+    def is_step(n_):
+        # one propagation step: update_interpretation(x), or the same thing spelt out, apply_interpretation(x, x)
+        if is_call(n_, "Adf::update_interpretation"):
+            return True
+        return is_call(n_, "Adf::apply_interpretation") and len(n_[2]) == 3 and deep_strip(n_[2][1]) == deep_strip(n_[2][2])
     st = symx.State()
     UPD = st.new_cell(("sym", "upd0"))
     paths = eng.summarise(b, [shared.ref_to(st, ("sym", "adf")), shared.ref_to(st, ("sym", "interp")), ("ref", UPD, ())], st)
     kinds = set()
     for p in paths:
         eqs = [(deep_strip(e), v) for e, v in p.cond if deep_strip(e)[0] == "app" and deep_strip(e)[1] in ("Eq", "Ne")]
-        step_cmp = [(e, v) for e, v in eqs if symx.contains(e, lambda n_: is_call(n_, "Adf::update_interpretation")) and symx.contains(e, lambda n_: n_[0] == "loopvar")]
+        step_cmp = [(e, v) for e, v in eqs if symx.contains(e, is_step) and symx.contains(e, lambda n_: n_[0] == "loopvar")]
         if len(step_cmp) != 1:
             ctx.cannot(rule, "step-comparison", "one comparison of the step result with the current interpretation per round", b.where(), p.describe()[:200])
             continue
